@@ -1177,6 +1177,13 @@ func runC08(c *CaseCtx) *CaseResult {
 		if first == nil {
 			first, firstW = res, w
 		}
+		if w.Stuck && len(res.Violations) == 0 {
+			// the library refused a commit because of its 256-entry limit (World.TolerateInlineLimit): the schedules end at
+			// different points, so nothing is compared across them
+			firstW.stats.Extra["cases-ended-at-the-256-entry-limit"]++
+			first.Config["ended_at_inline_limit"] = sc.name
+			return first
+		}
 		if len(res.Violations) > 0 {
 			for _, v := range res.Violations {
 				if res != first {
